@@ -19,6 +19,8 @@ import (
 	"strings"
 	"unicode/utf8"
 
+	mbody "github.com/google/martian/v3/body"
+
 	"verif/harness/internal/core"
 )
 
@@ -502,8 +504,20 @@ func (a *Abs) BuildRequest(mode string) (*http.Request, string) {
 	if mode == "d" {
 		return a.DirectRequest(), ""
 	}
-	req, err := a.ParseRequest()
-	if err != nil {
+	var req *http.Request
+	var err error
+	if mode == "b" {
+		pre, ok := a.preModifier()
+		if !ok {
+			return nil, "mode b: no usable stale Content-Length"
+		}
+		if req, err = pre.ParseRequest(); err != nil {
+			return nil, "pre-modifier wire does not parse: " + err.Error()
+		}
+		if err = mbody.NewModifier(a.Body, a.Get("Content-Type")).ModifyRequest(req); err != nil {
+			return nil, "body.Modifier: " + err.Error()
+		}
+	} else if req, err = a.ParseRequest(); err != nil {
 		return nil, "wire does not parse: " + err.Error()
 	}
 	switch {
@@ -527,8 +541,20 @@ func (a *Abs) BuildResponse(mode string, req *http.Request) (*http.Response, str
 	if mode == "d" {
 		return a.DirectResponse(req), ""
 	}
-	res, err := a.ParseResponse(req)
-	if err != nil {
+	var res *http.Response
+	var err error
+	if mode == "b" {
+		pre, ok := a.preModifier()
+		if !ok {
+			return nil, "mode b: no usable stale Content-Length"
+		}
+		if res, err = pre.ParseResponse(req); err != nil {
+			return nil, "pre-modifier wire does not parse: " + err.Error()
+		}
+		if err = mbody.NewModifier(a.Body, a.Get("Content-Type")).ModifyResponse(res); err != nil {
+			return nil, "body.Modifier: " + err.Error()
+		}
+	} else if res, err = a.ParseResponse(req); err != nil {
 		return nil, "wire does not parse: " + err.Error()
 	}
 	switch {
@@ -569,4 +595,105 @@ func ExpandBody(tok string) ([]byte, bool) {
 		b = Deflate(b)
 	}
 	return b, true
+}
+
+// ---- struct fields that disagree with same-named keys of the header map ----
+//
+// net/http keeps Host, Content-Length and Transfer-Encoding in struct fields and writes THOSE on the
+// wire; the header map of a message parsed from the wire still holds the Content-Length line it
+// arrived with, and a modifier may put any of the three keys into the map. Once a modifier has
+// changed a field (body.Modifier replacing the body, a re-framing modifier, a Host rewrite) map and
+// field disagree. Disagree mutates a into that class; the message must then be built with mode "d"
+// (constructed field by field) or, when it returns "mod:body", with mode "b" (parsed from the wire
+// with the stale length, then changed by the real body.Modifier).
+
+func (a *Abs) setHdr(k, v string) {
+	for i := range a.Hdr {
+		if a.Hdr[i].K == k {
+			a.Hdr[i].V = v
+			return
+		}
+	}
+	a.Hdr = append(a.Hdr, KV{k, v})
+}
+
+func (a *Abs) delHdr(k string) {
+	var out []KV
+	for _, h := range a.Hdr {
+		if h.K != k {
+			out = append(out, h)
+		}
+	}
+	a.Hdr = out
+}
+
+// Disagree returns the label of the disagreement it introduced ("" = none possible for this
+// message) and the build mode to use.
+func Disagree(r *core.Rand, a *Abs) (label, mode string) {
+	staleLen := func() string {
+		return r.Pick(strconv.FormatInt(a.CL+int64(1+r.Intn(40)), 10), "0", "1", "26", "999999")
+	}
+	var opts []string
+	if a.CL > 0 && !a.Chunked() && !a.NilBody {
+		opts = append(opts, "cl-stale", "cl-stale", "cl-stale", "mod:body", "mod:body")
+	}
+	if a.Req && a.Host != "" {
+		opts = append(opts, "host-stale")
+	}
+	if a.Chunked() {
+		opts = append(opts, "te-stale", "cl-absent-stale")
+	}
+	if len(a.TE) == 0 {
+		opts = append(opts, "te-absent-stale")
+		if a.CL <= 0 {
+			opts = append(opts, "cl-absent-stale")
+		}
+	}
+	if len(opts) == 0 {
+		return "", "d"
+	}
+	label = opts[r.Intn(len(opts))]
+	switch label {
+	case "cl-stale":
+		v := staleLen()
+		if v == strconv.FormatInt(a.CL, 10) {
+			v += "0"
+		}
+		a.setHdr("Content-Length", v)
+	case "mod:body":
+		// what body.Modifier leaves behind: Content-Type set, Content-Encoding gone, the map's
+		// Content-Length still the one of the replaced body, the field the new length
+		old := a.CL + int64(1+r.Intn(60))
+		if r.Chance(1, 3) && a.CL > 1 {
+			old = int64(r.Intn(int(a.CL)))
+		}
+		a.setHdr("Content-Length", strconv.FormatInt(old, 10))
+		a.setHdr("Content-Type", a.Get("Content-Type"))
+		a.delHdr("Content-Encoding")
+		return label, "b"
+	case "host-stale":
+		a.Hdr = append(a.Hdr, KV{"Host", r.Pick("stale.example", "other.test:1", a.Host+".old")})
+	case "te-stale":
+		a.Hdr = append(a.Hdr, KV{"Transfer-Encoding", r.Pick("identity", "gzip", "chunked, chunked")})
+	case "cl-absent-stale":
+		a.setHdr("Content-Length", r.Pick("26", "1", "4096"))
+	case "te-absent-stale":
+		a.Hdr = append(a.Hdr, KV{"Transfer-Encoding", "chunked"})
+	}
+	return label, "d"
+}
+
+// preModifier is the message as it was before body.Modifier replaced its body: same start line
+// and fields, a body of as many bytes as the (stale) Content-Length in the header map announces.
+func (a *Abs) preModifier() (*Abs, bool) {
+	n, err := strconv.ParseInt(a.Get("Content-Length"), 10, 64)
+	if err != nil || n < 0 || n > 1<<22 || a.Chunked() || len(a.TE) > 0 {
+		return nil, false
+	}
+	p := *a
+	p.Hdr = append([]KV(nil), a.Hdr...)
+	p.CL = n
+	p.Body = bytes.Repeat([]byte{'o'}, int(n))
+	p.BodyTok = ""
+	return &p, true
 }
